@@ -20,7 +20,7 @@ func init() {
 		Technique: "feasible-path enumeration of HostTable.LookupCluster with phis resolved along each path (branch facts over SSA values, contradiction pruning); per-path classification basic={none,miss,advmode,real} x advanced={-,norules,match,nomatch} and value-flow of Route.ClusterName / Route.Error / the returned error; structural check of the rule-iteration index; reachability in ReverseProxy.ServeHTTP; census of writers of the error sentinels; loop-iteration must-pass (inside the natural loop over the configured rules no header-to-header path avoids the insertion of the current element) for the basic tree build and the advanced slice build; key-form agreement between the lookup and the insert side of every radix tree of the basic rule tree (normaliser chain plus, per class of key {empty, ends in the suffix, does not}, whether the constant suffix is appended, the classes of a path being derived from its branch facts over len/last byte/==\"\"/strings.HasSuffix/boolean helpers); exit analysis of the basic lookup functions (a not-found verdict after a found-and-rejected candidate needs a missed lookup in the same tree)",
 		Meta: core.Meta{
 			Level:       "other",
-			Explanation: "Decides on every feasible path of bfe_route.HostTable.LookupCluster: (a) the basic tree consulted is productBasicRouteTree[req.Route.Product] (only under a successful map lookup), with the request host stripped of its port and URL.Path (\"\" when URL is nil, no nil dereference); (b) the basic result is stored into Route.ClusterName and nil returned exactly when Get reported found and the name was compared unequal to route_rule_conf.AdvancedMode, with no advanced lookup on that path; on every other path the final Route.ClusterName never derives from the basic result; (c) advanced rules are productAdvancedRouteTable[req.Route.Product], Condition.Match is invoked on elements of that slice through an index that ascends by one from 0 (configured order), after a Match that returned true no further Match is invoked and the cluster stored is the ClusterName of that same element; (d) when the product has no advanced rules / no rule matches, Route.ClusterName is \"\", Route.Error receives ErrNoProductRule / ErrNoMatchRule and that same non-nil sentinel is returned; nil is returned only with a cluster from (b) or (c); (e) the sentinels are assigned only by the package initialiser; BfeServer.findCluster and HostTable.Lookup/FindLocation propagate the error unchanged, in ReverseProxy.ServeHTTP no path leads from a failed findCluster to clusterInvoke or ClusterTable.Lookup (not forwarded) and the cluster looked up there is Route.ClusterName of the same request; BfeServer.Balance (TLS proxy mode) consults no balancer after a failed FindLocation; (f) configured order is preserved up to the lookup: convertAdvancedRule stores ClusterName and the built Cond of the i-th configured rule into element i of a slice of len(ruleFiles) published under the product name, no configured rule can be skipped (every completed iteration of the rule loop has stored both), RouteTableConf.AdvancedRuleMap/BasicRuleTree are the converters' results and HostTable's two tables are installed only by updateRouteTable from them; (g) the basic tree consulted holds every configured basic rule, whatever its cluster name — an ADVANCED_MODE entry must be found by Get so that it shadows a broader basic rule and hands the request to the advanced rules: in convertBasicRule no iteration of the loop over a product's rules completes without BasicRouteRuleTree.Insert(current element) on the tree that is published under the product in the returned map (every product iteration publishes a tree created inside it); BasicRouteRuleTree.Insert cannot report success before the host loop, every host iteration passes hostTrees.insert and the path loop, every path iteration passes pathTrees.insert(current path, *ruleConf.ClusterName) on the trees returned for that host; pathTrees.insert reports success only after a radix insertion whose value is its cluster parameter; nothing in route_rule_conf/bfe_route deletes radix entries; (h) the basic result is the rule the tree holds for the request, and a basic miss is a real miss: for every radix tree reached from BasicRouteRuleTree.Get and filled from BasicRouteRuleTree.Insert (identified by tree-array type and constant index) the key a lookup searches with has the same form as the key an insertion stores under — same normaliser chain (the writer-only strip of the wildcard marker aside) and, where a constant suffix (the trailing \"/\" of prefix paths) is appended on some paths, the same decision appended/not appended for each class of key: empty, ending in the suffix, not ending in it; the class of a path follows from its branch facts however the guard is spelled (len(x) against a constant, x == \"\", x[len(x)-1], strings.HasSuffix, a boolean helper of the module), so e.g. an empty request path is not turned into \"/\" on the lookup side only; every tree that is filled is also searched; in hostTrees.get, pathTrees.get and BasicRouteRuleTree.Get a constant found=true is returned only with the value of a lookup that reported found on that path, a handed-on verdict is the (value, found) pair of one inner lookup, and a constant not-found is returned only on paths where at least one lookup missed and where every lookup that had found an entry which was then rejected (the single-label test on a wildcard host) is followed up by a missed lookup in the same tree or below that entry (the any-host key \"\" is consulted before a multi-label host is declared a miss). Not covered: condition evaluation (C16-C18), the precedence order exact > wildcard > any inside the basic tree and which tree a rule class belongs to (C11), the radix library's Get/LongestPrefix semantics, key forms built by different helpers on the two sides (reported as not established), whether configuration loading rejects empty cluster names, modules that overwrite Route.ClusterName in later callbacks.",
+			Explanation: "Decides on every feasible path of bfe_route.HostTable.LookupCluster: (a) the basic tree consulted is productBasicRouteTree[req.Route.Product] (only under a successful map lookup), with the request host stripped of its port and URL.Path (\"\" when URL is nil, no nil dereference); (b) the basic result is stored into Route.ClusterName and nil returned exactly when Get reported found and the name was compared unequal to route_rule_conf.AdvancedMode, with no advanced lookup on that path; on every other path the final Route.ClusterName never derives from the basic result; (c) advanced rules are productAdvancedRouteTable[req.Route.Product], Condition.Match is invoked on elements of that slice through an index that ascends by one from 0 (configured order), after a Match that returned true no further Match is invoked and the cluster stored is the ClusterName of that same element; (d) when the product has no advanced rules / no rule matches, Route.ClusterName is \"\", Route.Error receives ErrNoProductRule / ErrNoMatchRule and that same non-nil sentinel is returned; nil is returned only with a cluster from (b) or (c); (e) the sentinels are assigned only by the package initialiser; BfeServer.findCluster and HostTable.Lookup/FindLocation propagate the error unchanged, in ReverseProxy.ServeHTTP no path leads from a failed findCluster to clusterInvoke or ClusterTable.Lookup (not forwarded) and the cluster looked up there is Route.ClusterName of the same request; BfeServer.Balance (TLS proxy mode) consults no balancer after a failed FindLocation; (f) configured order is preserved up to the lookup: convertAdvancedRule stores ClusterName and the built Cond of the i-th configured rule into element i of a slice of len(ruleFiles) published under the product name, no configured rule can be skipped (every completed iteration of the rule loop has stored both), RouteTableConf.AdvancedRuleMap/BasicRuleTree are the converters' results and HostTable's two tables are installed only by updateRouteTable from them; (g) the basic tree consulted holds every configured basic rule, whatever its cluster name — an ADVANCED_MODE entry must be found by Get so that it shadows a broader basic rule and hands the request to the advanced rules: in convertBasicRule no iteration of the loop over a product's rules completes without BasicRouteRuleTree.Insert(current element) on the tree that is published under the product in the returned map (every product iteration publishes a tree created inside it); BasicRouteRuleTree.Insert cannot report success before the host loop, every host iteration passes hostTrees.insert and the path loop, every path iteration passes pathTrees.insert(current path, *ruleConf.ClusterName) on the trees returned for that host; pathTrees.insert reports success only after a radix insertion whose value is its cluster parameter; nothing in route_rule_conf/bfe_route deletes radix entries; (h) the basic result is the rule the tree holds for the request, and a basic miss is a real miss: for every radix tree reached from BasicRouteRuleTree.Get and filled from BasicRouteRuleTree.Insert (identified by tree-array type and constant index) the key a lookup searches with has the same form as the key an insertion stores under — same normaliser chain (the writer-only strip of the wildcard marker aside) and, where a constant suffix (the trailing \"/\" of prefix paths) is appended on some paths, the same decision appended/not appended for each class of key: empty, ending in the suffix, not ending in it; the class of a path follows from its branch facts however the guard is spelled (len(x) against a constant, x == \"\", x[len(x)-1], strings.HasSuffix, a boolean helper of the module), so e.g. an empty request path is not turned into \"/\" on the lookup side only; every tree that is filled is also searched; in hostTrees.get, pathTrees.get and BasicRouteRuleTree.Get a constant found=true is returned only with the value of a lookup that reported found on that path, a handed-on verdict is the (value, found) pair of one inner lookup, and a constant not-found is returned only on paths where at least one lookup missed and where every lookup that had found an entry which was then rejected (the single-label test on a wildcard host) is followed up by a missed lookup in the same tree or below that entry (the any-host key \"\" is consulted before a multi-label host is declared a miss). Form-independence: the paths of LookupCluster continue through unexported functions and local closures of bfe_route (an extracted basic lookup, rule scan or error exit): parameters resolve to the arguments of the call, captured variables to the captured locations, results to the values returned on that path, and Route.* locations are named relative to LookupCluster's own request parameter whichever function writes them. Not covered: condition evaluation (C16-C18), the precedence order exact > wildcard > any inside the basic tree and which tree a rule class belongs to (C11), the radix library's Get/LongestPrefix semantics, key forms built by different helpers on the two sides (reported as not established), whether configuration loading rejects empty cluster names, modules that overwrite Route.ClusterName in later callbacks.",
 			RuleText:    "obligations = one per (clause, path class) of LookupCluster, the Get call's operands, the iteration index of each Match site, each sentinel's writers, each propagating caller, the ServeHTTP reachability query and cluster operand, each store of convertAdvancedRule, each writer of the route tables, each loop of the basic tree build (rules, hosts, paths), the success exits of Insert and pathTrees.insert, the radix-delete census, one per (radix tree, key class) of the basic rule tree, one per (lookup function, exit class: hit-source, delegated, miss-all-missed, miss-after-rejected:<tree>)",
 			Assumptions: []string{"condition.Condition.Match does not modify req.Route", "values re-loaded from req.Route.* between a store and a load in LookupCluster are not changed by another goroutine (a request is served by one goroutine)"},
 		},
@@ -65,6 +65,8 @@ func init() {
 			{Name: "silent-rename-and-log", Silent: true, File: "bfe_route/host_table.go", Old: "	for _, rule := range rules {\n		if rule.Cond.Match(req) {\n			clusterName = rule.ClusterName\n			break\n		}\n	}", New: "	for _, advRule := range rules {\n		matched := advRule.Cond.Match(req)\n		if matched {\n			clusterName = advRule.ClusterName\n			break\n		}\n	}"},
 			{Name: "silent-classic-loop", Silent: true, File: "bfe_route/host_table.go", Old: "	for _, rule := range rules {\n		if rule.Cond.Match(req) {\n			clusterName = rule.ClusterName\n			break\n		}\n	}", New: "	for i := 0; i < len(rules); i++ {\n		if rules[i].Cond.Match(req) {\n			clusterName = rules[i].ClusterName\n			break\n		}\n	}"},
 			{Name: "silent-nested-ifs", Silent: true, File: "bfe_route/host_table.go", Old: "		if found && clusterName != route_rule_conf.AdvancedMode {\n			// set clusterName\n			req.Route.ClusterName = clusterName\n			return nil\n		}", New: "		if found {\n			if clusterName != route_rule_conf.AdvancedMode {\n				req.Route.ClusterName = clusterName\n				return nil\n			}\n		}"},
+			{Name: "silent-error-exit-in-helper", Silent: true, File: "bfe_route/host_table.go", Old: "	if clusterName == \"\" {\n		req.Route.ClusterName = \"\"\n		req.Route.Error = ErrNoMatchRule\n		return req.Route.Error\n	}\n\n	// set clusterName\n	req.Route.ClusterName = clusterName\n\n	return nil\n}\n", New: "	if clusterName == \"\" {\n		return noCluster(req, ErrNoMatchRule)\n	}\n\n	// set clusterName\n	req.Route.ClusterName = clusterName\n\n	return nil\n}\n\n// noCluster records a failed cluster lookup in the request.\nfunc noCluster(req *bfe_basic.Request, cause error) error {\n	req.Route.ClusterName = \"\"\n	req.Route.Error = cause\n	return cause\n}\n"},
+			{Name: "silent-rule-scan-in-closure", Silent: true, File: "bfe_route/host_table.go", Old: "	// matching route rules\n	for _, rule := range rules {\n		if rule.Cond.Match(req) {\n			clusterName = rule.ClusterName\n			break\n		}\n	}\n", New: "	// matching route rules\n	scan := func(list route_rule_conf.AdvancedRouteRules) string {\n		for _, rule := range list {\n			if rule.Cond.Match(req) {\n				return rule.ClusterName\n			}\n		}\n		return \"\"\n	}\n	clusterName = scan(rules)\n"},
 		},
 	})
 }
@@ -204,12 +206,15 @@ func runC12(c *core.Ctx) {
 		return
 	}
 
-	paths, complete := rtPaths(fn, 3)
+	for _, g := range c.P.Region(fn) {
+		c.Analysed(core.FuncKey(g))
+	}
+	// paths continue through private helpers of the package (an extracted basic lookup, an extracted rule scan)
+	paths, complete := rtPathsR(fn, 3)
 	c.Check("paths", "LookupCluster:enumeration", fn.Pos(), complete && len(paths) >= 4,
 		fmt.Sprintf("%d feasible paths enumerated (complete=%v); at least 4 expected (basic hit, advanced mode, miss, no rules, match, no match)", len(paths), complete))
 	c.Note("LookupCluster: %d feasible paths (loop unrolled to 2 iterations)", len(paths))
 	agg := newRtAgg(c)
-	isProductKey := func(v ssa.Value) bool { return rtAP(v) == "p1.Route.Product" }
 	mapLookupOn := func(v ssa.Value, field string) *ssa.Lookup {
 		ex, ok := v.(*ssa.Extract)
 		if !ok {
@@ -224,6 +229,8 @@ func runC12(c *core.Ctx) {
 	const cnAddr, errAddr = "p1.Route.ClusterName", "p1.Route.Error"
 
 	for _, p := range paths {
+		p := p
+		isProductKey := func(v ssa.Value) bool { return p.AP(len(p.Items), v) == "p1.Route.Product" }
 		rets, rn := p.ret()
 		if rn < 0 {
 			agg.add("paths", "LookupCluster:panic-exit", fn.Pos(), false, "a path through LookupCluster ends in an explicit panic")
@@ -258,7 +265,7 @@ func runC12(c *core.Ctx) {
 			}
 			// operands of Get
 			recvOK, why := false, ""
-			if lk := mapLookupOn(call.Call.Args[0], "productBasicRouteTree"); lk == nil {
+			if lk := mapLookupOn(p.R(gi, call.Call.Args[0]), "productBasicRouteTree"); lk == nil {
 				why = "receiver is " + core.Render(call.Call.Args[0]) + ", expected t.productBasicRouteTree[req.Route.Product]"
 			} else if !isProductKey(lk.Index) {
 				why = "basic tree selected by " + core.Render(lk.Index) + ", expected req.Route.Product"
@@ -270,7 +277,7 @@ func runC12(c *core.Ctx) {
 			agg.add("basic-args", "LookupCluster:tree", call.Pos(), recvOK, why)
 			steps, root := rtChain(call.Call.Args[1], func(v ssa.Value) ssa.Value { return p.R(gi, v) })
 			steps = rtCanonChain(steps)
-			hostOK := len(steps) == 1 && steps[0] == "portstrip" && rtAP(root) == "p1.HttpRequest.Host"
+			hostOK := len(steps) == 1 && steps[0] == "portstrip" && p.AP(gi, root) == "p1.HttpRequest.Host"
 			if hostOK {
 				// SplitN must be allowed to split: n >= 2 or negative
 				if ia, ok := rtLoadOf(p.R(gi, call.Call.Args[1])).(*ssa.IndexAddr); ok {
@@ -288,8 +295,8 @@ func runC12(c *core.Ctx) {
 			why = "path operand is " + core.Render(pv) + ", expected req.HttpRequest.URL.Path or \"\""
 			if rtConstStr(pv, "") {
 				pathOK = true
-			} else if rtAP(pv) == "p1.HttpRequest.URL.Path" {
-				isNil, known := p.eqFact(gi, func(v ssa.Value) bool { return rtAP(v) == "p1.HttpRequest.URL" }, rtIsNil)
+			} else if p.AP(gi, pv) == "p1.HttpRequest.URL.Path" {
+				isNil, known := p.eqFact(gi, func(v ssa.Value) bool { return p.AP(gi, v) == "p1.HttpRequest.URL" }, rtIsNil)
 				pathOK = known && !isNil
 				why = "URL.Path is read on a path that did not establish req.HttpRequest.URL != nil"
 			}
@@ -357,7 +364,7 @@ func runC12(c *core.Ctx) {
 			if base != nil {
 				el = p.elemOf(mi, base)
 			}
-			if !el.ok || el.slice != rtExtractOf(advLk, 0) {
+			if !el.ok || p.R(mi, el.slice) != rtExtractOf(advLk, 0) {
 				srcOK = false
 				why = "Condition.Match is invoked on " + core.Render(call.Call.Value) + ", which is not the Cond of an element of the product's advanced rule slice"
 				continue
@@ -425,7 +432,7 @@ func runC12(c *core.Ctx) {
 		var rv ssa.Value
 		if len(rets) == 1 {
 			rv = rets[0]
-			if rtAP(rv) == errAddr && ev != nil {
+			if p.AP(rn, rv) == errAddr && ev != nil {
 				rv = ev // return req.Route.Error right after storing it
 			}
 		}
